@@ -14,7 +14,7 @@ def build():
 def run(tier, deadline):
     t0 = time.time(); build()
     env = dict(os.environ, CAT_LIB=vbuild.build("prod"))
-    N, perms = (7, 0) if tier == "quick" else (9, 1)
+    N, perms = (7, 0) if tier == "quick" else (10, 1)
     jobs = [[str(N), str(perms), str(i), "16"] for i in range(16)]
     viol = {}; internal = []; tot = {"arrays_sorted": 0, "searches": 0, "comparisons": 0}; timed_out = []
     def one(j):
